@@ -71,6 +71,13 @@ def render_case(scfg, how="scfg", bf=None):
     except Exception as e:  # noqa: BLE001
         return None, [f"DOT source not parsable: {type(e).__name__}"]
     probs = [f"node {d} drawn twice" for d in dups]
+    # drawing the same graph again (a second renderer object) gives the same drawing
+    try:
+        src2 = SCFGRenderer(scfg).render_scfg().source if how == "scfg" else ByteFlowRenderer().render_byteflow(bf).source
+        if src2 != src:
+            probs.append("drawing differs when the same graph is rendered a second time")
+    except Exception as e:  # noqa: BLE001
+        probs.append(f"render raised {type(e).__name__} when the same graph is rendered a second time")
     probs += label_problems(scfg, nodes, clusters)
     if how == "byteflow":
         for k, b in scfg.graph.items():
